@@ -52,7 +52,12 @@ impl Property for C03 {
         let chunk = if r.chance(1, 2) { 0 } else { 1 + r.below(3000) as usize };
         let overlay = if mode == 8 { sdk::binding_overlay(sdk::Binding::Box) } else { json!({}) };
         let ctx = Arc::new(sdk::make_context(&overlay));
-        let asset = assets::generate(fmt, &mut r);
+        let mut asset = assets::generate(fmt, &mut r);
+        // one JPEG run in twelve: a foreign (non-C2PA) APP11 segment of 17-27 bytes in the source
+        let short_app11 = fmt == Fmt::Jpeg && r.chance(1, 12);
+        if short_app11 {
+            asset = assets::insert_short_app11(&asset, &mut r);
+        }
         let mode_name = ["embedded", "embedded", "embedded", "embedded", "embedded", "embedded", "sidecar", "sidecar", "compressed", "update"][mode as usize];
         let tag = format!("{}:{mode_name}:{}:{}:v{}{}", fmt.name(), g.alg, g.hash_alg.unwrap_or("default"), g.claim_version, if is_async { ":async" } else { "" });
         out.evals += 1;
@@ -106,7 +111,8 @@ impl Property for C03 {
             }
             Ok(Err(e)) => {
                 let step = e.split(':').next().unwrap_or("").to_string();
-                out.violate(0, &format!("sign-fails:{mode_name}:{}:{e}", fmt.name()), "C03 signing succeeds for supported assets and well-formed definitions",
+                let cls = if short_app11 { format!("sign-fails:jpg-with-foreign-short-app11:{}", e.rsplit(':').next().unwrap_or("")) } else { format!("sign-fails:{mode_name}:{}:{e}", fmt.name()) };
+                out.violate(0, &cls, "C03 signing succeeds for supported assets and well-formed definitions",
                     json!({"scenario": tag, "error": e, "step": step}));
                 return out;
             }
